@@ -76,7 +76,7 @@ pub fn replay(prop: &str, file: &str) -> i32 {
 	match prop {
 		"C06" | "C01" | "C07" | "C11" if r["engine"] == "world" => replay_world(prop, &r),
 		"C02" | "C03" | "C07" | "C07c" | "C11" if r["engine"] == "crash" => crash::replay(if prop == "C07c" { "C07" } else { prop }, &r),
-		"C05" | "C17" | "C04" | "C01" | "C02" | "C11" | "C06" | "C04s" | "C01s" | "C02s" if r["engine"] == "schedx" => sched::replay(prop.trim_end_matches('s'), &r),
+		"C05" | "C17" | "C04" | "C01" | "C02" | "C11" | "C06" | "C14" | "C04s" | "C01s" | "C02s" if r["engine"] == "schedx" => sched::replay(prop.trim_end_matches('s'), &r),
 		"C07" if r["engine"] == "c07-shrink" || r["engine"] == "c07-oversize" => c07::replay(&r),
 		"C17" if r["engine"] == "c17-seq" => c17::replay(&r),
 		"C04" => c04::replay(&r),
